@@ -12,6 +12,12 @@ From LZ4V Require Import Proofs.HcMidSound Proofs.HcMidCap Proofs.HcChainSearch 
 Import ListNotations.
 Local Open Scope Z_scope.
 
+(* section-independent restatements (the HcMidCap versions carry incidental section arguments) *)
+Lemma bound_255c srcSize : 0 <= srcSize -> 256 * srcSize + 3826 <= 255 * (srcSize + srcSize / 255 + 16).
+Proof. intros H. Z.div_mod_to_equations. lia. Qed.
+Lemma extlen_le_addc v : 0 <= v -> extlen v <= (v + 240) / 255.
+Proof. intros Hv. unfold extlen. destruct (v <? 15) eqn:B; Z.div_mod_to_equations; lia. Qed.
+
 Section ChainCap.
   Variable vrd : Z -> Z.
   Variable lim : outdir.
@@ -85,7 +91,7 @@ Section ChainCap.
     - apply Emit; [exact HlR|].
       pose proof (Hex lastRun HlR) as Hx.
       unfold chw, HcMidCap.hwlim. remember lim as l eqn:El. destruct l.
-      + specialize (Hpot eq_refl). pose proof (bound_255 vrd srcSize Hb). pose proof (extlen_bound lastRun HlR).
+      + specialize (Hpot eq_refl). pose proof (bound_255c srcSize Hsz). pose proof (extlen_bound lastRun HlR).
         subst lastRun. destruct (iend - c_anchor s <? 15) eqn:B; Z.div_mod_to_equations; lia.
       + cbn [hc_limited andb] in E. lia.
       + cbn [hc_limited andb] in E. lia.
@@ -103,7 +109,7 @@ Section ChainCap.
     rewrite Eo. unfold LASTLITERALS. replace (maxOut - 5 + 5) with maxOut by lia.
     set (L := c_ip s - c_anchor s) in *. assert (HL : 0 <= L) by (subst L; lia).
     assert (EL : L = c_ip s - c_anchor s) by reflexivity. clearbody L.
-    pose proof (extlen_le_add vrd Hb L HL) as HeL. pose proof (extlen_nonneg L) as HeL0.
+    pose proof (extlen_le_addc L HL) as HeL. pose proof (extlen_nonneg L) as HeL0.
     apply c_last_literals_cap; [intros _; apply Hfill; reflexivity | | | reflexivity].
     - assert (Same : CInv s).
       { unfold CInv. split; [assumption|]. split; [assumption|]. split; [intros; congruence | intros _; apply Hfo; reflexivity]. }
@@ -160,7 +166,7 @@ Section ChainCap.
     - assert (Hret : e_ret e = 0) by lia. specialize (Hsh Hret). destruct Hsh as (Hso & Hsw).
       unfold CInv; cbn [c_hw c_op c_anchor].
       destruct (outdir_case lim) as [Hn|Hn].
-      + specialize (Hpot Hn). pose proof (bound_255 vrd srcSize Hb) as B255.
+      + specialize (Hpot Hn). pose proof (bound_255c srcSize Hsz) as B255.
         pose proof (seq_potential_255 L ml HL Hml4) as P255. pose proof (extlen_bound L HL) as EB.
         assert (Ehw : hwlim = srcSize + srcSize / 255 + 16) by (unfold chw, HcMidCap.hwlim; rewrite Hn; reflexivity).
         unfold MINMATCH in *.
